@@ -49,6 +49,7 @@ TAG_TO_MATCH = {
     "second-bpop": "pipelined-second-bpop",
     "hangup-blocked": "disconnect-while-blocked",
     "big-push": "wake-batch-overflow",
+    "batch-before-hangup-noticed": "disconnect-in-flight",
 }
 FIVE = ("notify_per_element", "wake_at_push", "unregister_all", "refuse_in_tx", "dedup_keys")
 # which source switch closes which finding (None = no local repair proposed)
@@ -61,6 +62,7 @@ MATCH_TO_SWITCH = {
     "disconnect-while-blocked": "notice_blocked_hangup",
     "wake-batch-overflow": "drain_all",
     "exec-not-atomic": "exec_atomic",
+    "hangup-during-stall": "wake_checks_client",
     "push-by-script": "serve_after_script",
     "rename-onto-waited-key": "serve_after_script",
 }
@@ -69,7 +71,7 @@ MARGIN_MS = 60      # a deadline counts as passed this long after it
 LATE_MS = 300       # a nil may be this late
 
 
-SWITCHES = ("notify_per_element", "wake_at_push", "unregister_all", "refuse_in_tx", "dedup_keys", "drain_all", "notice_blocked_hangup", "defer_batch", "exec_atomic")
+SWITCHES = ("notify_per_element", "wake_at_push", "unregister_all", "refuse_in_tx", "dedup_keys", "drain_all", "notice_blocked_hangup", "defer_batch", "exec_atomic", "wake_checks_client")
 
 
 def cfg_line(facts):
@@ -520,6 +522,8 @@ class HistoryRun:
         if self.waits[ci] and self.waits[ci][0].deferred:
             self.waits[ci][0].deferred = False
             self.waits[ci][0].t_send = t
+            self.seq += 1
+            self.waits[ci][0].seq = self.seq         # it joins the queues now, behind whoever blocked meanwhile
 
     def fail(self, kind, why, step, key=None):
         if (kind, key) in self.flagged:
@@ -1322,7 +1326,50 @@ def probes(sess):
     sess.select(0)
     out["wake-batch-overflow"] = probe_batch_overflow(sess)
     out["exec-not-atomic"] = probe_exec_atomic(sess)
+    out["hangup-during-stall"] = probe_hangup_during_stall(sess)
     return out
+
+
+def probe_hangup_during_stall(sess):
+    """A (and, in the second round, B behind it) blocked on k; the event loop is stalled; A closes its socket; a push to k
+    arrives during the stall.  In the iteration that follows, the server's look at A's socket comes before the push is
+    handled: the element must be conserved — left in the list, or handed to the next waiter — never popped for A."""
+    for with_next in (False, True):
+        for bop in ("BLPOP", "BRPOP"):
+            sess.hist_no += 1
+            k = b"p%d:hs" % sess.hist_no
+            a, b, p, z = sess.srv.client(), sess.srv.client(), sess.srv.client(), sess.srv.client()
+            try:
+                a.send(bop, k, "0")
+                sess.wait_loops(3)
+                if with_next:
+                    b.send(bop, k, "0")
+                    sess.wait_loops(3)
+                z.send("SLEEP", "300")
+                time.sleep(0.05)
+                a.close()
+                time.sleep(0.02)
+                p.send("RPUSH", k, "x")
+                z.read_reply(5)
+                pr = p.read_reply(5)
+                sess.wait_loops(5)
+                got_b = Flat(b).read(0.2) if with_next else None
+                lst = sess.impl_list(k)
+                reg, wq = sess.impl_blocked([k])
+                sess.rep.count("probe.hangup-during-stall.%s.%s" % (bop, "with-next-waiter" if with_next else "alone"))
+                if with_next:
+                    conserved = got_b == "p=%s=%s" % (hx(k), hx(b"x")) and lst == []
+                else:
+                    conserved = lst == [b"x"]
+                if not conserved:
+                    return {"why": "A blocked in %s %r 0%s; loop stalled; A closes; RPUSH %r x during the stall (%r): the list holds %r, %s, registry %s — x was popped for the "
+                                   "client that had gone" % (bop, k, ", B behind it" if with_next else "", k, pr, lst,
+                                                             "B got %s" % got_b if with_next else "nobody else waits", show_reg(reg)),
+                            "commands": ["A: %s k 0" % bop] + (["B: %s k 0" % bop] if with_next else []) + ["Z: SLEEP 300", "A closes", "P: RPUSH k x (during the stall)"]}
+            finally:
+                for c_ in (a, b, p, z):
+                    c_.close()
+    return None
 
 
 def probe_batch_overflow(sess):
